@@ -196,6 +196,21 @@ func (a *icApp) InitChain(req abci.RequestInitChain) abci.ResponseInitChain {
 	return res
 }
 
+// rbStore: the block store as Rollback sees it: at the state's height, blocks from the initial
+// height on.
+type rbStore struct {
+	sm.BlockStore
+	ih, h int64
+}
+
+func (b rbStore) Height() int64 { return b.h }
+func (b rbStore) LoadBlockMeta(h int64) *types.BlockMeta {
+	if h < b.ih || h > b.h {
+		return nil
+	}
+	return &types.BlockMeta{Header: types.Header{Height: h, Time: time.Unix(1+h, 0).UTC()}}
+}
+
 type world struct {
 	cur   *types.ValidatorSet
 	db    dbm.DB
@@ -392,6 +407,35 @@ func (w *world) op(line string) string {
 		})
 		if strings.HasPrefix(r, "PANIC:") {
 			return "hs-panic-" + errClass(r, iv)
+		}
+		return r
+	case "rollback":
+		if len(f) != 1 || w.st == nil {
+			return "bad-op"
+		}
+		r := try(func() string {
+			_, _, err := sm.Rollback(rbStore{ih: w.st.InitialHeight, h: w.st.LastBlockHeight}, w.store)
+			if err != nil {
+				e := err.Error()
+				switch {
+				case strings.Contains(e, "block at height"):
+					return "err-noblock"
+				case strings.Contains(e, "consensus params"):
+					return "err-params"
+				case strings.Contains(e, "failed to save"):
+					return "err-save"
+				}
+				return "err-load"
+			}
+			st, err := w.store.Load()
+			if err != nil {
+				return "err-load-state"
+			}
+			w.st = &st
+			return fmt.Sprintf("ok h=%d lhc=%d cur=%s next=%s", st.LastBlockHeight, st.LastHeightValidatorsChanged, showSet(st.Validators), showSet(st.NextValidators))
+		})
+		if strings.HasPrefix(r, "PANIC:") {
+			return "panic"
 		}
 		return r
 	case "bootstrap":
@@ -837,6 +881,13 @@ func prioFinding(where string, prev *rset, batch []pv, want, got *rset) core.Fin
 	return core.Finding{Fingerprint: fp, Desc: fmt.Sprintf("batch %s on %s: specified %s, got %s", fmtPV(batch), prev, want, got)}
 }
 
+func trunc(s string, n int) string {
+	if len(s) > n {
+		return s[:n] + "…"
+	}
+	return s
+}
+
 func fmtPV(l []pv) string {
 	p := make([]string, len(l))
 	for i, v := range l {
@@ -903,6 +954,9 @@ func oracle(c core.Case, out []string) []core.Finding {
 	var base, tip int64 = 0, -1 // retained range for the store stream
 	var ih int64
 	rawSeen := false
+	// Rollback bookkeeping: last-change height of the current state and the range of heights whose
+	// records Rollback may have damaged (known finding)
+	var curLhc, taintFrom, taintTo int64 = 0, 0, 0
 	// proportional turns: window of single rotations without a rescale (reset on any other op)
 	winK := int64(0)
 	winCnt := map[string]int64{}
@@ -1045,8 +1099,39 @@ func oracle(c core.Case, out []string) []core.Finding {
 				}
 			}
 			cur = s
+		case "rollback":
+			if !strings.HasPrefix(o, "ok ") {
+				continue
+			}
+			f := strings.Fields(o)
+			if len(f) != 5 {
+				continue
+			}
+			rh, _ := strconv.ParseInt(strings.TrimPrefix(f[1], "h="), 10, 64)
+			newLhc, _ := strconv.ParseInt(strings.TrimPrefix(f[2], "lhc="), 10, 64)
+			cs, ok1 := parseSetOut(strings.TrimPrefix(f[3], "cur="))
+			ns, ok2 := parseSetOut(strings.TrimPrefix(f[4], "next="))
+			if ok1 && ok2 {
+				if t := truth[rh+1]; t != nil && !sameSet(t, cs) {
+					fs = append(fs, core.Finding{Fingerprint: "state.Rollback.validators-not-restored", Desc: "want " + t.String() + " got " + cs.String()})
+				}
+				if t := truth[rh+2]; t != nil && !sameSet(t, ns) {
+					fs = append(fs, core.Finding{Fingerprint: "state.Rollback.next-validators-not-restored", Desc: "want " + t.String() + " got " + ns.String()})
+				}
+			}
+			if curLhc > rh+1 {
+				// the set of height rh+2 last changed above rh+1, but Rollback records rh+1: the record at
+				// rh+2 is overwritten by a pointer to a height that does not hold that set
+				if taintFrom == 0 || rh+2 < taintFrom {
+					taintFrom = rh + 2
+				}
+				taintTo = 0
+			}
+			tip = rh + 2
+			curLhc = newLhc
 		case "bootstrap":
 			if strings.HasPrefix(o, "ok base=") {
+				curLhc, taintFrom, taintTo = 0, 0, 0
 				b, _ := strconv.ParseInt(strings.TrimPrefix(o, "ok base="), 10, 64)
 				base = b // the fresh store holds height-1 .. height+1 of the bootstrapped state
 			}
@@ -1066,6 +1151,7 @@ func oracle(c core.Case, out []string) []core.Finding {
 			ih, _ = strconv.ParseInt(m["ih"], 10, 64)
 			truth = map[int64]*rset{ih: a, ih + 1: b}
 			base, tip = ih, ih+1
+			curLhc, taintFrom, taintTo = ih, 0, 0
 			where := "state.MakeGenesisState"
 			src, _ := parseVals(m["v"], false)
 			if strings.Fields(op)[0] == "handshake" {
@@ -1102,6 +1188,10 @@ func oracle(c core.Case, out []string) []core.Finding {
 			prev := truth[h+1]
 			truth[h+2] = s
 			tip = h + 2
+			curLhc, _ = strconv.ParseInt(strings.TrimPrefix(f[2], "lhc="), 10, 64)
+			if taintFrom > 0 && taintTo == 0 && (curLhc == h+2 || (h+2)%100000 == 0) {
+				taintTo = h + 2 // a full record again: later heights no longer depend on the damaged pointer
+			}
 			fs = append(fs, checkWellformed("state.updateState", s, false)...)
 			if l, _ := parseVals(m["ch"], false); len(l) == 0 && prev != nil {
 				if want := refIncrement(prev, 1); !sameSet(want, s) {
@@ -1130,6 +1220,14 @@ func oracle(c core.Case, out []string) []core.Finding {
 				continue
 			}
 			want := truth[h]
+			if taintFrom > 0 && h >= taintFrom && (taintTo == 0 || h < taintTo) {
+				got, ok := parseSetOut(strings.TrimPrefix(o, "ok "))
+				if !strings.HasPrefix(o, "ok ") || !ok || !sameSet(want, got) {
+					fs = append(fs, core.Finding{Fingerprint: "state.Rollback.last-change-height-clamped-one-too-low",
+						Desc: fmt.Sprintf("after a Rollback over a validator change LoadValidators(%d) (retained, in [%d,%d]) gives %s, chain had %s", h, base, tip, trunc(o, 120), want)})
+				}
+				continue
+			}
 			if !strings.HasPrefix(o, "ok ") {
 				fs = append(fs, core.Finding{Fingerprint: "store.LoadValidators.retained-height-not-loadable", Desc: fmt.Sprintf("height %d in [%d,%d]: %s", h, base, tip, o)})
 				continue
